@@ -352,7 +352,7 @@ def generate(rng, tier, boost):
             cases.append(stream_case(chain, pre + [m], 3, j, L + 1))
             cases.append(stream_case(chain, pre + [m], 3, j, (1 << 32) - 1))
     # --- every truncation point of multi-frame streams
-    for _ in range(6 * reps):
+    for _ in range(40 if big else 5):
         chain = rng.randrange(4)
         ms = [rand_msg(rng, rng.choice([0, 1, 2, 4, 7, 9, 13, 15, 16, 3, 10]), False, safe=True) for _ in range(rng.randrange(1, 4))]
         total = len(b''.join(enc_frame(MAGICS[chain], m) for m in ms))
